@@ -76,7 +76,9 @@ CHECKS = {
          'stabilization without development branch, released '
          'stabilization, micro mismatch), only the destination hotfix '
          'branch enters a cascade, and which branch kind contributes the '
-         'expected fix version in each case.',
+         'expected fix version in each case; the cascade is re-sorted '
+         'after every insertion, version accumulators are max(new, old), '
+         'merge paths are computed before finalize prunes the cascade.',
          'The computed target list, ignored branches and version numbers on '
          'concrete branch/tag sets are NOT decided (value of an algorithm; '
          'needs exhaustive execution).', 'C09 / section 11.7'),
@@ -106,7 +108,9 @@ CHECKS = {
          'Static: duplicate suppression consults only the pending queue; the '
          'worker catches Exception without re-raising and completes the job '
          'in finally; no process exit reachable from handlers; accepted '
-         'requests reach put_job.',
+         'requests reach put_job; a webhook handler builds no job only for '
+         'the frozen list of ignored events; job equality compares class, '
+         'repository and exact key.',
          'Does NOT decide thread interleavings of put_job with the worker '
          '(needs a model checker).', 'C13'),
  'C14': ('registry + decorator-order + must-pass-through + regex language '
@@ -128,8 +132,10 @@ CHECKS = {
          'agreement',
          'Static: no flow from a credential to a log / print / exception / '
          'comment / job-report sink that avoids mask_pwd, over all paths '
-         'including exception chaining; mask and clone URL use the same '
-         'quoting.',
+         'including exception chaining (`from err`, implicit context, and '
+         '__context__ / __cause__ read back later) and requests.Session '
+         'verbs routed to the overridden request(); mask and clone URL use '
+         'the same quoting; the sanitiser masks on every path.',
          'Does not model third-party library logging.', 'C16'),
  'C17': ('who-may-write with guard dominance + sibling agreement + '
          'exhaustive dispatch + registry',
@@ -143,7 +149,9 @@ CHECKS = {
          'emptiness, inclusion, equivalence with witnesses)',
          'Decided over the full regular languages of the branch patterns: '
          'pairwise unambiguity in factory order, kinds, destinations, '
-         'delimiter-freeness and embedding for the round trip.',
+         'delimiter-freeness and embedding for the round trip; the '
+         'cascade is listed by whole ref names (decoration language '
+         'inclusion); version tuples have the arity of their kind.',
          'Alphabet restricted to ref-legal characters; trusts re._parser.',
          'C18'),
  'C19': ('must-pass-through + argument-provenance + sibling agreement',
@@ -228,7 +236,13 @@ def main():
                  'pytest). exit 0 = held, 1 = VIOLATION, 2 = ANALYSIS-ERROR '
                  '(anchor missing / unfoldable constant).  Thorough tier '
                  'additionally runs the mutant/equivalent self-validation '
-                 'on in-memory edits of the current tree.',
+                 'on in-memory edits of the current tree.  Before the rules '
+                 'run, the parsed tree is normalised (sa/inline.py): helpers '
+                 'and literal constants that are not in the reference census '
+                 'sa/baseline_funcs.txt are written back into their uses.  '
+                 'Corpora kept for re-validation: seeded/ (69 confirmed '
+                 'breaking changes, tools/seeded_run.py), benign/ '
+                 '(behaviour-preserving refactors, tools/benign_run.py).',
     }
     with open(os.path.join(HERE, 'MANIFEST.json'), 'w') as fh:
         json.dump(man, fh, indent=1)
